@@ -142,19 +142,63 @@ def r3_filter_headers(chk: Check) -> None:
         chk.ok("C09.R3", fn, "no header is deleted", "", fn.loc())
         return
     g = cfg_of(fn)
+    known_param = params_of(fn.node)[1] if len(params_of(fn.node)) > 1 else "known_generated_headers"
+
+    def membership(e: ast.expr, container_pred) -> tuple[str, bool] | None:  # type: ignore[no-untyped-def]
+        """(key variable, positive?) if e is `<k> in <C>` / `<k> not in <C>` with C accepted by container_pred."""
+        if isinstance(e, ast.Compare) and len(e.ops) == 1 and isinstance(e.ops[0], (ast.In, ast.NotIn)) and isinstance(e.left, ast.Name) and container_pred(e.comparators[0]):
+            return e.left.id, isinstance(e.ops[0], ast.In)
+        return None
+
+    is_known = lambda c: isinstance(c, ast.Name) and c.id == known_param  # noqa: E731
+    is_auto = lambda c: isinstance(c, ast.Call) and last_attr(c) == "get_excluded_headers"  # noqa: E731
     for d in dels:
-        guard = next((a for a in ancestors(d) if isinstance(a, ast.If)), None)
-        t = unparse(guard.test, 300) if guard is not None else ""
         dk = d.targets[0].slice if isinstance(d.targets[0], ast.Subscript) else None
         kname = dk.id if isinstance(dk, ast.Name) else None
-        ok = None if guard is not None else False
-        if guard is not None and kname:
-            keeps = phas(f"{kname} not in known_generated_headers", guard.test)
-            auto = phas(f"{kname} in get_excluded_headers()", guard.test)
-            ok = keeps and auto and isinstance(guard.test, ast.BoolOp) and isinstance(guard.test.op, ast.And)
-            if phas(f"{kname} in known_generated_headers", guard.test):
-                ok = False
-        chk.decide(ok, "C09.R3", fn, "delete only if not generated AND auto-added", f"guard `{t}` removes headers that belong to the generated case", fn.loc(d))
+        nodes = g.stmt_nodes_containing(d)
+        construct = "delete only if not generated AND auto-added"
+        if kname is None or not nodes:
+            chk.undecided("C09.R3", fn, construct, "deleted key not recognised", fn.loc(d))
+            continue
+        protects = False
+        auto_only = False
+        extra_reason = None
+        for tid, e in guard_tests(g, lambda e: True):
+            on_true = all(g.dominated_by_edge(n, tid, "true") for n in nodes)
+            on_false = all(g.dominated_by_edge(n, tid, "false") for n in nodes)
+            if not (on_true or on_false):
+                continue
+            # facts known on that edge: conjuncts on the true edge of an `and`, negated disjuncts on the false edge of an `or`
+            if on_true:
+                facts = [(c, True) for c in conjuncts(e)]
+            else:
+                ds = e.values if isinstance(e, ast.BoolOp) and isinstance(e.op, ast.Or) else [e]
+                facts = [(c, False) for c in ds]
+            for c, holds in facts:
+                inner, neg = strip_not(c)
+                truth = holds != neg
+                mk = membership(inner, is_known)  # type: ignore[arg-type]
+                if mk and mk[0] == kname and (mk[1] != truth):  # key NOT in known
+                    protects = True
+                ma = membership(inner, is_auto)  # type: ignore[arg-type]
+                if ma and ma[0] == kname and (ma[1] == truth):  # key in auto-added
+                    auto_only = True
+            # an `or` on the true edge: deletion happens for ANY of the disjuncts
+            if on_true:
+                for c in conjuncts(e):
+                    if isinstance(c, ast.BoolOp) and isinstance(c.op, ast.Or):
+                        autos = [x for x in c.values if (m_ := membership(strip_not(x)[0], is_auto)) and m_[0] == kname and m_[1] and not strip_not(x)[1]]  # type: ignore[arg-type]
+                        others = [x for x in c.values if x not in autos]
+                        if autos and others:
+                            extra_reason = others[0]
+        if extra_reason is not None:
+            chk.violation("C09.R3", fn, construct, f"headers are also removed when `{unparse(extra_reason, 60)}`: a header that the request really carried (and that neither requests nor Schemathesis adds on its own for every request) is missing from the reproduction command", fn.loc(d))
+        elif not protects:
+            chk.violation("C09.R3", fn, construct, "the deletion is not protected by a `not in known_generated_headers` test: headers that belong to the generated case are removed from the command", fn.loc(d))
+        elif not auto_only:
+            chk.undecided("C09.R3", fn, construct, "the deletion is not visibly restricted to get_excluded_headers()", fn.loc(d))
+        else:
+            chk.ok("C09.R3", fn, construct, "", fn.loc(d))
     ex = P.func(f"{CURL}:get_excluded_headers")
     t = unparse(ex.node, 100000)
     chk.expect("CaseInsensitiveDict" in t and "**default_headers()" in t and "SCHEMATHESIS_TEST_CASE_HEADER" in t, "C09.R3", ex, "excluded = headers requests/Schemathesis add on their own (case-insensitive)", "exclusion list changed", ex.loc())
